@@ -164,12 +164,14 @@ def r2(ctx, F):
 
 def r3(ctx, F):
     # mtime_secs
-    b = F.body('meta::mtime_secs')
+    import semantic_anchors
+    MT = semantic_anchors.mtime_helper(F) or 'meta::mtime_secs'      # located by use: (&Metadata) -> i64 feeding FileMeta.mtime
+    b = F.body(MT)
     if b is None:
         ctx.missing('C14.R3', 'meta::mtime_secs')
     calls = set()
     consts = set()
-    for body in F.nested('meta::mtime_secs'):
+    for body in F.nested(MT):
         fl = flow_of(body)
         for bb, t in fl.calls():
             calls.add(callee(t))
@@ -240,6 +242,7 @@ STAT_NOFOLLOW = ('std::fs::symlink_metadata', 'std::fs::DirEntry::metadata', 'st
 
 
 def r6(ctx, F):
+    import semantic_anchors
     """The quick check compares (size, mtime) of what was delivered.  Delivery opens the path (following links) and the tree
     walk admits entries by Path::is_file (following links), so the stat recorded for the entry must follow links too, and both
     fields must come from the same stat result."""
@@ -265,7 +268,7 @@ def r6(ctx, F):
                     stats |= {(x.kind, x.key, x.bb) for x in call_arg_origins(fl, o.bb, 0) if x.kind != 'comb'}
                 mstats = set()
                 mo = [o for o in fl.origins(fields['mtime']) if o.kind != 'comb']
-                via = all(o.kind == 'call' and o.key == 'meta::mtime_secs' for o in mo) and bool(mo)
+                via = all(o.kind == 'call' and o.key == (semantic_anchors.mtime_helper(F) or 'meta::mtime_secs') for o in mo) and bool(mo)
                 for o in mo:
                     if o.kind == 'call':
                         mstats |= {(x.kind, x.key, x.bb) for x in call_arg_origins(fl, o.bb, 0) if x.kind != 'comb'}
